@@ -1022,6 +1022,22 @@ pub fn run_io<C: for<'x> Cfg<'x, IoIn<'x>>>(job: &Job, acc: &mut Acc) {
         &ident,
         acc,
     );
+    // the same inputs behind a reader that is NOT at its start when it is handed over (a header has been read from it):
+    // the input is what the reader yields from there on, positions count from there
+    let hdr: Vec<Vec<u8>> = bufs.iter().map(|b| [b"HDR".as_slice(), b.as_slice()].concat()).collect();
+    let j = Job { kind_name: "IoInput(reader handed over after a 3-byte header)", ..*job };
+    run_generic::<IoIn, C>(
+        &j,
+        &|i| {
+            let mut c = std::io::Cursor::new(&hdr[i][..]);
+            c.set_position(3);
+            chumsky::input::IoInput::new(c)
+        },
+        &|_| (0, 0),
+        &|i, s, _| index_norm(bufs[i].len(), s),
+        &ident,
+        acc,
+    );
 }
 
 // ---- IoInput over a reader that answers with short reads and `Interrupted` (environment deviations) -----------
